@@ -36,7 +36,7 @@ DeepDocs ==
   {Nest(66, 67, d, <<>>) : d \in {254, 255, 256, 257}} \cup                       \* [[[...]]] array root
   {<<64, 20, 1, 97>> \o Nest(66, 67, d, <<>>) \o <<65>> : d \in {254, 255, 256}} \cup   \* {"a":[[...]]}
   {Nest(66, 67, d, <<16, 5>>) : d \in {255, 256}} \cup
-  {ObjNest(d) : d \in {1, 2, 3, 4, 9, 10, 11, 12}} \cup
+  {ObjNest(d) : d \in {1, 2, 3, 4, 9, 10, 11, 12, 254, 255, 256, 257}} \cup
   {<<66>> \o ObjNest(d) \o <<67>> : d \in {1, 2, 3, 9, 10, 11}} \cup
   {ObjArrNest(d) : d \in {1, 2, 3, 9, 10, 11}} \cup
   \* the array counter is per object level: 255 arrays, an object, 255 more arrays is fine
